@@ -1,5 +1,6 @@
 SPECIFICATION Spec
 CONSTANTS
+  Prune = TRUE
   Dev_h12 = TRUE
   Dev_h13 = TRUE
   Dev_t127 = TRUE
@@ -15,7 +16,7 @@ CONSTANTS
   V5Flt = {"AES256"}
   Pairs <- PairsQuick
   Attempts <- AttemptsQuick
-  MaxDepth = 6
+  MaxDepth = 5
   Emit = FALSE
   KnownTags <- AllKnown
 INVARIANTS OnlyKnown JudgeTracks EmitInv
